@@ -166,7 +166,7 @@ func c13CommentsSkipped(r *an.Run) {
 		for _, in := range an.StoresIn(g) {
 			if st, ok := in.(*ssa.Store); ok && an.Path(st.Addr) == "p.text" {
 				n++
-				r.Check(short(g) == short(f), short(g)+"|sets-text", st.Pos(), "p.text (the current line) is set only by next()")
+				r.Check(short(g) == short(f) || inGroup(f, g), short(g)+"|sets-text", st.Pos(), "p.text (the current line) is set only by next() (or a helper of it)")
 			}
 		}
 	}
@@ -221,7 +221,16 @@ func c13Descriptions(r *an.Run) {
 				readName = c
 			}
 		}
-		r.Check(capture != nil && readName != nil && an.InstrDominates(capture, readName), short(g)+"|captured-before-name", g.Pos(), "the description is captured before the header is consumed (readName calls next(), which clears it)")
+		// what counts is when the pending description is READ: the value loaded from p.lastComments is what ends
+		// up in the change, whether it is stored into the Change at once or kept in a local until the literal is built
+		var captureAt ssa.Instruction
+		if capture != nil {
+			captureAt = capture
+			if ld, ok := capture.Val.(*ssa.UnOp); ok {
+				captureAt = ld
+			}
+		}
+		r.Check(captureAt != nil && readName != nil && an.InstrDominates(captureAt, readName), short(g)+"|captured-before-name", g.Pos(), "the description is captured before the header is consumed (readName calls next(), which clears it)")
 	}
 	// it ends up in parse.Change.Comments and engine.Change.Comments unchanged
 	if g := fn(r, parseP, "parser.parseChange"); g != nil {
